@@ -106,6 +106,7 @@ class Sym:
         # opaque inputs: variables whose defining expression is outside the fragment (frequency[index], np.max(...)); they
         # stand for "the value this variable holds". Never an output of the slice.
         self.inputs = {p: (lean_ident(p), t) for p, t in spec["params"] if p in spec.get("opaque", [])}
+        self.abstract = {k: (lean_ident(v), "num") for k, v in spec.get("abstract", {}).items()}
         self.tree = None
         self.cls = spec.get("cls")
         self.depth = 0
@@ -115,6 +116,10 @@ class Sym:
     def expr(self, node, env):
         if isinstance(node, ast.Constant):
             return number(node.value)
+        if self.abstract:
+            key = ast.unparse(node)
+            if key in self.abstract:        # an aggregate the fragment cannot express (len(xs), max(fcs)): an input
+                return self.abstract[key]
         name = dotted(node)
         if name is not None:
             if name in env:
@@ -173,6 +178,8 @@ class Sym:
             return f"(if {c} then {a} else {b})", ta
         if isinstance(node, ast.Call):
             return self.call(node, env)
+        if isinstance(node, ast.Tuple) and node.elts:
+            return "(" + ", ".join(self.expr(e, env)[0] for e in node.elts) + ")", "tuple"
         raise Untranslatable(type(node).__name__)
 
     def need(self, t, want):
@@ -650,6 +657,17 @@ def translate(repo, spec):
                 stmts = stmts[last + 1:]
                 for p_, t_ in params:
                     env[p_] = (lean_ident(p_), t_)
+            if "start_at_test" in spec:
+                for i, s in enumerate(stmts):
+                    if isinstance(s, ast.If) and ast.unparse(s.test) == spec["start_at_test"]:
+                        env, l2 = sym.prologue(stmts[:i], env)
+                        lets += l2
+                        stmts = stmts[i:]
+                        for p_, t_ in params:
+                            env[p_] = (lean_ident(p_), t_)
+                        break
+                else:
+                    raise Untranslatable("no if-statement with the test " + spec["start_at_test"])
             if "start_at" in spec:
                 for i, s in enumerate(stmts):
                     if spec["start_at"] in sym.assigned([s]):
@@ -714,6 +732,22 @@ TARGETS = [
          opaque=["mc_peak_frq", "mc_peak_amp", "f_plus", "f_minus", "sigma_a_peak"],
          params=[("mc_peak_frq", "num"), ("mc_peak_amp", "num"), ("f_plus", "num"), ("f_minus", "num"), ("fn_std", "num"), ("sigma_a_peak", "num")],
          out=["criteria[2]", "criteria[3]", "criteria[4]", "criteria[5]"], out_types=["num"] * 4),
+    # one-sided PSD: the chain of normalisations applied to the summed |FFT|^2 (taper power, samples, sampling rate, 2, windows)
+    dict(group="Psd", name="psd_scaling", file="hvsrpy/processing.py", func="_rpds_single_component", start_after="window_scaling_factor",
+         abstract={"len(timeseries)": "n_windows"},
+         params=[("psd", "num"), ("window_scaling_factor", "num"), ("tseries.n_samples", "num"), ("tseries.fs", "num"), ("n_windows", "num")],
+         out=["return"]),
+    # Nyquist guard of the resampling: refused (None) iff the largest centre frequency exceeds 1/(2 dt)
+    dict(group="Nyquist", name="check_nyquist_frequency", file="hvsrpy/processing.py", func="check_nyquist_frequency", check_args=["dt", "fcs"],
+         abstract={"max(fcs)": "fmax", "np.max(fcs)": "fmax", "fcs.max()": "fmax"}, params=[("dt", "num"), ("fmax", "num")], out=["fnyq"], option=True),
+    # Monte-Carlo fn: conversion of the draws into the space of the spatial statistics, and of the results back
+    dict(group="Spatial", name="mc_to_spatial", file="hvsrpy/hvsr_spatial.py", func="montecarlo_fn",
+         start_at_test="distribution_generators == 'lognormal' and distribution_spatial == 'normal'", stop_before="fn_mean",
+         params=[("distribution_generators", "str"), ("distribution_spatial", "str"), ("realizations", "num")], out=["realizations"]),
+    dict(group="Spatial", name="mc_from_spatial", file="hvsrpy/hvsr_spatial.py", func="montecarlo_fn",
+         start_at_test="distribution_spatial == 'lognormal'",
+         params=[("distribution_spatial", "str"), ("fn_mean", "num"), ("fn_stddev", "num"), ("realizations", "num")],
+         out=["return"], out_types=["num", "num", "num"]),
     # frequency-domain window rejection: the accept decision of the inner loop (None = window skipped, its masks are kept) ...
     dict(group="Fdwra", name="fdwra_keep", file="hvsrpy/window_rejection.py", func="_frequency_domain_window_rejection",
          descend=["c_iteration", "c_peak"], params=[("c_valid", "bool"), ("c_peak", "num"), ("lower_bound", "num"), ("upper_bound", "num")],
@@ -726,7 +760,7 @@ TARGETS = [
 ]
 
 
-GROUPS = ["Combine", "Azimuth", "Orient", "Windows", "Stats", "Sesame", "Fdwra"]
+GROUPS = ["Combine", "Azimuth", "Orient", "Windows", "Stats", "Sesame", "Fdwra", "Psd", "Nyquist", "Spatial"]
 
 
 def emit(repo):
